@@ -114,6 +114,18 @@ def boundary_lines():
     return out
 
 
+def setter_lines():
+    """every sequence of up to three setter / remove calls on the kinds that have setters (exhaustive over a small alphabet)"""
+    import itertools
+    out = []
+    for kind, alpha in (("beacon", ["r:0", "r:3", "s:4e", "s:-", "c:9"]), ("probe_resp", ["r:0", "r:3", "s:4e", "s:-", "c:9"]),
+                        ("assoc_resp", ["r:3", "r:1", "c:9", "a:3:07"]), ("reassoc_resp", ["r:3", "c:9", "a:3:07", "a:0:41"])):
+        for n in (1, 2, 3):
+            for seq in itertools.product(alpha, repeat=n):
+                out.append("gen %s a1=010203040506 a2=0a0b0c0d0e0f a3=101112131415 ssid=6f6c64 ch=6 clk=1:0 ops=%s" % (kind, ",".join(seq)))
+    return out
+
+
 def check(ctx):
     ctx.rule = ("every generator (16 kinds): boundary arguments (all-zero / all-FF MACs, SSID lengths 0..33 and 255, every channel, every action category, boundary 16-bit reason/duration values%s) "
                 "and seeded random arguments followed by random histories of appended tags / action details up to the one-octet limit (and, marked `full`, setter/remove edits); "
@@ -125,6 +137,7 @@ def check(ctx):
     ok, broken, data, exe = r
     rnd = random.Random(ctx.seed)
     fw.run_suite(ctx, exe, "S-gen/boundary", boundary_lines(), "frame generation")
+    fw.run_suite(ctx, exe, "S-gen/setter-sequences", setter_lines(), "frame generation after setter / remove sequences")
     n = 250 if ctx.tier == "quick" else 4000
     lines = [gen_line(rnd, k, full=(i % 3 == 0)) for k in KINDS for i in range(n)]
     fw.run_suite(ctx, exe, "S-gen/random", lines, "frame generation")
